@@ -81,6 +81,11 @@ type Context struct {
 	watchers      map[string]vivid.ActorRef          // 正在监听该 Actor 终止事件的 ActorRef，其中 key 为 ActorRef 的完整路径
 	stash         []vivid.Envelop                    // 暂存区
 	scheduler     *Scheduler                         // 调度器
+	// awaitingLaunch 由 ActorOf 在注册路径之前置位，处理 OnLaunch 时清除；preLaunch 暂存在此之前到达的消息。
+	// ActorOf 先注册路径、后投递 OnLaunch，在此窗口内按路径寻址的发送者的消息可能先于 OnLaunch 到达，
+	// 而 OnLaunch 必须是每个实例处理的第一条消息
+	awaitingLaunch bool
+	preLaunch      []vivid.Envelop
 }
 
 func (c *Context) Cluster() vivid.ClusterContext {
@@ -172,6 +177,11 @@ func (c *Context) ActorOf(actor vivid.Actor, options ...vivid.ActorOption) (vivi
 	if err != nil {
 		return nil, err
 	}
+
+	// 路径一经注册即可被寻址，而 OnLaunch 稍后才入队：先挂起邮箱，窗口内到达的普通消息留在队列中（保持顺序），
+	// 系统消息由 HandleEnvelop 暂存，均在 OnLaunch 处理完毕后才被处理
+	childCtx.awaitingLaunch = true
+	childCtx.mailbox.Pause()
 
 	if c.system.appendActorContext(childCtx) {
 		return nil, vivid.ErrorActorAlreadyExists.WithMessage(childCtx.Ref().GetPath())
@@ -304,6 +314,13 @@ func (c *Context) PipeTo(recipient vivid.ActorRef, message vivid.Message, forwar
 }
 
 func (c *Context) HandleEnvelop(envelop vivid.Envelop) {
+	if c.awaitingLaunch {
+		if _, isLaunch := envelop.Message().(*vivid.OnLaunch); !isLaunch {
+			c.preLaunch = append(c.preLaunch, envelop)
+			return
+		}
+	}
+
 	// 非运行状态下：
 	// - 普通消息一律推入死信队列
 	// - 系统消息在 killing 阶段仍需要处理（例如子 Actor 的 OnKilled 事件），否则终止流程无法闭环
@@ -351,12 +368,25 @@ func (c *Context) HandleEnvelop(envelop vivid.Envelop) {
 
 	switch message := c.envelop.Message().(type) {
 	case *vivid.OnLaunch:
-		c.executeBehaviorWithRecovery(behavior)
+		launching := c.awaitingLaunch
+		c.awaitingLaunch = false
+		failed := c.executeBehaviorWithRecovery(behavior)
 		// 通知事件流
 		c.EventStream().Publish(c, ves.ActorLaunchedEvent{
 			ActorRef: c.ref,
 			Type:     reflect.TypeOf(c.actor),
 		})
+		if launching {
+			// 启动成功则放行启动前到达的普通消息；启动失败时邮箱保持挂起，由监管决策决定其去向
+			if !failed {
+				c.mailbox.Resume()
+			}
+			early := c.preLaunch
+			c.preLaunch = nil
+			for _, earlyEnvelop := range early {
+				c.HandleEnvelop(earlyEnvelop)
+			}
+		}
 	case *vivid.OnKill:
 		c.onKill(message, behavior)
 	case *vivid.OnKilled:
@@ -380,9 +410,10 @@ func (c *Context) HandleEnvelop(envelop vivid.Envelop) {
 	}
 }
 
-func (c *Context) executeBehaviorWithRecovery(behavior vivid.Behavior) {
+func (c *Context) executeBehaviorWithRecovery(behavior vivid.Behavior) (failed bool) {
 	defer func() {
 		if r := recover(); r != nil {
+			failed = true
 			switch m := c.Message().(type) {
 			case *vivid.OnKill:
 				// 此刻已经在停止流程中，记录日志并且继续执行停止流程，不再触发监管策略
@@ -401,6 +432,7 @@ func (c *Context) executeBehaviorWithRecovery(behavior vivid.Behavior) {
 		}
 	}()
 	behavior(c)
+	return false
 }
 
 func (c *Context) onScheduler(message *SchedulerMessage, behavior vivid.Behavior) {
